@@ -1500,14 +1500,19 @@ class _DNF:
                     return list(val)
                 return [val]
 
-            return [
+            # Sets iterate in hash order, which changes between processes;
+            # sort so that the resulting ``filters`` operand is deterministic
+            return sorted(
                 (
-                    _maybe_list(val.to_list_tuple())
-                    if hasattr(val, "to_list_tuple")
-                    else _maybe_list(val)
-                )
-                for val in self
-            ]
+                    (
+                        _maybe_list(val.to_list_tuple())
+                        if hasattr(val, "to_list_tuple")
+                        else _maybe_list(val)
+                    )
+                    for val in self
+                ),
+                key=repr,
+            )
 
     class _And(frozenset):
         """Frozen set of conjunctions"""
@@ -1515,8 +1520,13 @@ class _DNF:
         def to_list_tuple(self) -> list:
             # DNF "and" is List[Tuple]
             return tuple(
-                val.to_list_tuple() if hasattr(val, "to_list_tuple") else val
-                for val in self
+                sorted(
+                    (
+                        val.to_list_tuple() if hasattr(val, "to_list_tuple") else val
+                        for val in self
+                    ),
+                    key=repr,
+                )
             )
 
     _filters: _And | _Or | None  # Underlying filter expression
